@@ -410,6 +410,7 @@ func vfSameLibState(a, b *libStatus, ob, finding string, class bool) {
 }
 
 const vfFindingRestart = "F-C08-2-restart-confirms-required"
+const vfFindingRestartH1 = "F-C08-4-restart-at-height-1"
 
 // VF_C08_e: a node follows a linear honest history of h blocks, saving the LIB status with every block (Status.Save,
 // gob); after block r (choice) a second node object is started on the same data (real Status.init: bootLoader.load,
@@ -444,15 +445,20 @@ func vfRestart(n, h int, reach string) {
 	// known class: confirmsRequired is fed back into newLibStatus(bpCount) on the restart path, which only is the
 	// identity when 2*(2n/3+1)/3+1 == 2n/3+1 (n <= 4)
 	cr := uint16(n)*2/3 + 1
-	class := cr*2/3+1 != cr
+	finding, class := vfFindingRestart, cr*2/3+1 != cr
+	if !class {
+		// second known class (harmless): a restart when the chain consists of genesis + ONE block — loadPlibStatus
+		// returns nil for begBlockNo == endBlockNo == 1, so the confirmation info of block 1 is not rebuilt
+		finding, class = vfFindingRestartH1, r == 1
+	}
 	vf.Reach(reach)
 	vf.Assert(s2.bestBlock == s1.bestBlock, "C08.e.best")
-	vfSameLibState(s1.libState, s2.libState, "C08.e.restored", vfFindingRestart, class)
+	vfSameLibState(s1.libState, s2.libState, "C08.e.restored", finding, class)
 	for k := r + 1; k <= h; k++ {
 		blk := hi.next()
 		s1.Update(blk)
 		s2.Update(blk)
-		vfSameLibState(s1.libState, s2.libState, "C08.e.continued", vfFindingRestart, class)
+		vfSameLibState(s1.libState, s2.libState, "C08.e.continued", finding, class)
 	}
 	vf.Observe("lib1", s1.libState.Lib.BlockNo)
 	vf.Observe("lib2", s2.libState.Lib.BlockNo)
